@@ -155,6 +155,9 @@ def run(ctx):
         ('G-exec', 200, 3000, dict(p_bad=0.4)),
         ('G-exec-twins', 80, 1200, dict(twins=True)),
         ('G-exec-overlap', 80, 1200, dict(overlap=True)),
+        ('G-exec-twins-odd', 60, 1000, dict(twins='odd')),
+        ('G-exec-badsusp', 120, 2000, dict(p_bad=1.0, bad_kinds=['susp-mid', 'susp-mid', 'susp-suspending', 'susp-dup',
+                                                                   'susp-unknown', 'susp-wrongpool'])),
     ], nontrivial=lambda run: any(e['cmd']['susp'] for e in run.trace))
     import collections
     st = collections.Counter(out['dist'])
